@@ -1,7 +1,7 @@
 #![no_main]
 // C15: incomplete mode never returns Error::Parse, tiles a prefix, agrees with strict mode.
 use libfuzzer_sys::fuzz_target;
-use svverif::engine::Stats;
+use svverif::engine::{fuzz_ctx, Stats};
 use svverif::props::c15;
 use svverif::sv::Grammar;
 include!("common.rs");
@@ -14,10 +14,11 @@ fuzz_target!(|data: &[u8]| {
     if nesting(text) > 24 {
         return;
     }
+    let k3 = fuzz_ctx().findings.is_known("C15", "K3");
     on_big_stack(|| {
         let mut st = Stats::default();
         for g in [Grammar::Sv, Grammar::Lib] {
-            if let Err(f) = c15::check_incomplete(g, text, &mut st, "fuzz", ")") {
+            if let Err(f) = c15::check_incomplete(g, text, &mut st, "fuzz", ")", k3) {
                 panic!("C15 violated: {}", f.msg);
             }
         }
